@@ -324,7 +324,8 @@ def rtc_shapes(case_names, tier):
                              ("int", (Ellipsis, -s_ - 2, torch.tensor([0])))]
                 if p == 0 and rank > 2:
                     idxs += [("int", (s_, Ellipsis)), ("int", (-s_ - 1, Ellipsis)), ("int", (s_, Ellipsis, 0)), ("int", (s_, 0, 0) + (0,) * (rank - 3))]
-                bad_tens = [[0, s_], [s_], [-s_ - 1], [s_ + 2, 0, 0], [0, 0, -s_ - 3], [[0, s_]]]
+                bad_tens = [[0, s_], [s_], [-s_ - 1], [s_ + 2, 0, 0], [0, 0, -s_ - 3], [[0, s_]],
+                            [-1, s_], [s_ + 1, -s_], [-s_ - 1, s_ - 1, -1]]  # (valid negative entries next to an out-of-range one)
                 for bt in bad_tens:
                     tt = torch.tensor(bt)
                     idxs.append(("tensor", pre + (tt,)))
